@@ -1135,67 +1135,70 @@ func checkObservableWrapper(r *Run, k *kvCtx) {
 		return
 	}
 	l := wrapper.Lits[0]
-	c := p.CFG(l)
 	handler := paramObj(wrapper, 0)
-	isHandler := func(nd ast.Node) bool {
-		return nodeHasCall(l, nd, func(o types.Object, _ *ast.CallExpr) bool { return o == handler })
-	}
 	ignoreF := p.FieldOf(kvPkg, "observableOptions", "ignoreHostLeaseholder")
-	atomOK := func(e ast.Expr) bool {
-		if s, ok := ast.Unparen(e).(*ast.SelectorExpr); ok && fieldVar(l, s) == ignoreF {
-			return true
+	// truth table over the two atoms "the subscriber asked to ignore host-led requests"
+	// and "the request's leaseholder is the host": the handler is skipped exactly when
+	// both hold, however the decision is written down (E17).
+	classify := func(ev *ttEval, st *ttState, f *FuncNode, e ast.Expr) (string, bool, bool) {
+		f1, e1 := ev.resolve(st, f, e)
+		if sel, ok := ast.Unparen(e1).(*ast.SelectorExpr); ok && ignoreF != nil && fieldVar(f1, sel) == ignoreF {
+			return "ignore", false, true
 		}
-		if be, ok := ast.Unparen(e).(*ast.BinaryExpr); ok && be.Op == token.EQL {
-			hasLH, hasHost := false, false
-			ast.Inspect(be, func(y ast.Node) bool {
-				if s, ok := y.(*ast.SelectorExpr); ok && s.Sel.Name == "Leaseholder" {
-					hasLH = true
-				}
-				if c2, ok := y.(*ast.CallExpr); ok {
-					if f := CalleeFunc(l, c2); f != nil && f.Name() == "HostKey" {
-						hasHost = true
-					}
-				}
-				return true
-			})
-			return hasLH && hasHost
+		be, ok := ast.Unparen(e).(*ast.BinaryExpr)
+		if !ok || (be.Op != token.EQL && be.Op != token.NEQ) {
+			return "", false, false
 		}
-		return false
-	}
-	// legitimate skip: true edge of a conjunction containing BOTH atoms
-	legit := map[edge]bool{}
-	for _, b := range c.G.Blocks {
-		cond := Cond(b)
-		if cond == nil {
-			continue
+		isLH := func(x ast.Expr) bool {
+			_, x2 := ev.resolve(st, f, x)
+			sel, ok := ast.Unparen(x2).(*ast.SelectorExpr)
+			return ok && sel.Sel.Name == "Leaseholder"
 		}
-		cj := conjuncts(cond)
-		all, hasIgnore, hasCmp := true, false, false
-		for _, a := range cj {
-			if !atomOK(a) {
-				all = false
+		isHost := func(x ast.Expr) bool {
+			f2, x2 := ev.resolve(st, f, x)
+			c2, ok := ast.Unparen(x2).(*ast.CallExpr)
+			if !ok {
+				return false
 			}
-			if s, ok := ast.Unparen(a).(*ast.SelectorExpr); ok && fieldVar(l, s) == ignoreF {
-				hasIgnore = true
-			}
-			if _, ok := ast.Unparen(a).(*ast.BinaryExpr); ok && atomOK(a) {
-				hasCmp = true
+			g := CalleeFunc(f2, c2)
+			return g != nil && g.Name() == "HostKey"
+		}
+		if (isLH(be.X) && isHost(be.Y)) || (isLH(be.Y) && isHost(be.X)) {
+			return "hostled", be.Op == token.NEQ, true
+		}
+		return "", false, false
+	}
+	outcome := func(*FuncNode, *ast.ReturnStmt, []ttVal) string { return "end" }
+	event := func(f *FuncNode, s ast.Stmt) string {
+		es, ok := s.(*ast.ExprStmt)
+		if !ok {
+			return ""
+		}
+		if call, ok := ast.Unparen(es.X).(*ast.CallExpr); ok {
+			if id, ok := ast.Unparen(call.Fun).(*ast.Ident); ok && objOf(f, id) == handler {
+				return "handler"
 			}
 		}
-		if all && hasIgnore && hasCmp {
-			legit[edge{b, 0}] = true
+		return ""
+	}
+	table, bad := ttTableEv(p, l, []string{"ignore", "hostled"}, classify, outcome, false, event)
+	if bad != "" {
+		r.Undecide("C13.R3: the handler literal of observable.OnChange could not be evaluated: %s", bad)
+		return
+	}
+	ok := true
+	why := ""
+	for mask, outs := range table {
+		for o := range outs {
+			called := strings.Contains(o, "+handler")
+			if called == (mask == 3) {
+				ok = false
+				why = fmt.Sprintf("ignoreHostLeaseholder=%v hostLed=%v: handler called=%v", mask&1 != 0, mask&2 != 0, called)
+			}
 		}
 	}
-	q, vis := c.ReachAvoiding([]Point{c.Entry()}, legit, isHandler)
-	ok := len(c.NodesWhere(isHandler)) > 0
-	var path []string
-	for _, ex := range c.Exits() {
-		if vis[ex.P] && !(ex.P.I >= 0 && ex.P.I < len(ex.P.B.Nodes) && isHandler(ex.P.B.Nodes[ex.P.I])) {
-			ok = false
-			path = q.PathTo(ex.P)
-		}
-	}
-	r.ObPath("C13.R3.wrapper", "the wrapper hides exactly the host-led requests when asked to", p.Position(l.Pos()), ok && len(legit) == 1, "any other skip hides changes from subscribers; a missing skip shows host-led changes to IgnoreHostLeaseholder subscribers", path)
+	r.Ob("C13.R3.wrapper", "the wrapper hides exactly the host-led requests when asked to", p.Position(l.Pos()), ok,
+		"any other skip hides changes from subscribers; a missing skip shows host-led changes to IgnoreHostLeaseholder subscribers ("+why+")")
 }
 
 // checkObserverNoWait decides C13.R5.
